@@ -516,7 +516,8 @@ def compare_copy(full_parent, full_src, comp_index, how):
         a = canon.build(ops, comps, t=t, ct=ct, with_dur=True, top=comp_index, origin=origin)
         b = canon.build(sops, scomps, t=stt, ct=sct, with_dur=True, origin=sstart or 0.0)
         if a != b:
-            out.append(oracles.F(["C05"], "copy-schedule-differs-from-source", how=how, copy=oracles._short(a), source=oracles._short(b)))
+            # the relation equations of the source no longer hold in its copy: C05, and C01's "through nesting"
+            out.append(oracles.F(["C05", "C01"], "copy-schedule-differs-from-source", how=how, copy=oracles._short(a), source=oracles._short(b)))
         elif comp_index is not None and sdur is not None and ct[comp_index][2] != sdur:
             out.append(oracles.F(["C05", "C04"], "nested-copy-duration-differs-from-source", how=how, got=ct[comp_index][2], want=sdur))
     return out
